@@ -28,7 +28,9 @@ void CDNS::Timestamp::add_time_offset(int64_t offset, uint64_t ticks_per_second)
 
     int64_t ticks = (m_secs * ticks_per_second) + m_ticks;
 
-    if (-1 * offset > ticks)
+    // Result would be before the start of epoch or wouldn't fit into the tick counter
+    if ((offset < 0 && (ticks < 0 || static_cast<uint64_t>(ticks) < -static_cast<uint64_t>(offset))) ||
+        (offset > 0 && ticks > INT64_MAX - offset))
         throw std::runtime_error("Adding offset to Timestamp would create invalid Timestamp!");
 
     ticks += offset;
